@@ -11,7 +11,7 @@ import HotXL.Model.Fn.DateTime
 import HotXL.Model.Fn.Eng
 import HotXL.Model.Fn.Fin
 import HotXL.Model.Fn.Lookup
-import HotXL.Generated.Tables
+import HotXL.Generated.Registry
 
 namespace HotXL.Builtins
 open HotXL
